@@ -132,18 +132,18 @@ type fact struct {
 }
 
 type an struct {
-	p        *Pkg
-	decls    map[types.Object]*ast.FuncDecl
-	initLits map[types.Object]*ast.FuncLit
-	mutates  map[types.Object]bool
-	facts    []fact
-	cross    []fact
-	reads    map[int]map[types.Object]bool // role → root objects referenced
-	curReads []readRec
+	p          *Pkg
+	decls      map[types.Object]*ast.FuncDecl
+	initLits   map[types.Object]*ast.FuncLit
+	mutates    map[types.Object]bool
+	facts      []fact
+	cross      []fact
+	reads      map[int]map[types.Object]bool // role → root objects referenced
+	curReads   []readRec
 	scopeCalls map[string]bool
-	aliasBusy map[types.Object]bool
-	enclAl    map[types.Object]ast.Expr
-	enclDone  map[types.Object]bool
+	aliasBusy  map[types.Object]bool
+	enclAl     map[types.Object]ast.Expr
+	enclDone   map[types.Object]bool
 }
 
 // enclAlias: a variable of the enclosing function that is defined once, as a slice / element / field of other data
@@ -1870,6 +1870,42 @@ func main() {
 		w("  (%s, %s)%s\n", leanStr(m.fn), leanStr(m.x), comma(i, len(mapRanges)))
 	}
 	w("]\n\n")
+	{
+		sw := a.sessionCensus(fans)
+		type sk struct{ pkg, fn, target, op string }
+		seenS := map[sk]int{}
+		var ks []sk
+		sites := map[sk][]string{}
+		for _, x := range sw {
+			k := sk{x.pkg, x.fn, x.target, x.op}
+			if _, ok := seenS[k]; !ok {
+				ks = append(ks, k)
+				seenS[k] = 0
+			}
+			if x.reach {
+				seenS[k] = 1
+			}
+			sites[k] = append(sites[k], x.pos)
+		}
+		w("/-- the census of writes to session-wide state (fields of query.Transaction, query.Session, option.Flags; package-level\n    variables of lib/query, lib/value, lib/option): (package, function, target, operation, reachable from a worker body) -/\n")
+		w("def sessionWrites : List (String × String × String × String × Bool) := [\n")
+		for i, k := range ks {
+			r := "false"
+			if seenS[k] == 1 {
+				r = "true"
+			}
+			w("  (%s, %s, %s, %s, %s)%s\n", leanStr(k.pkg), leanStr(k.fn), leanStr(k.target), leanStr(k.op), r, comma(i, len(ks)))
+		}
+		w("]\n\n")
+		w("def sessionWriteSites : List String := [")
+		for i, k := range ks {
+			if i > 0 {
+				w(", ")
+			}
+			w("%s", leanStr(k.fn+" "+k.target+": "+strings.Join(sites[k], " ")))
+		}
+		w("]\n\n")
+	}
 	w("def mapRangeSites : List String := [")
 	for i, m := range mapRanges {
 		if i > 0 {
